@@ -80,71 +80,89 @@ let near_tie (rw : q list) : bool =
 let matrix_row (m : q list list) (s : nat) : q list = List.nth m (int_of_nat s)
 let matrix_get (m : q list list) (s : nat) (a : nat) : q = List.nth (matrix_row m s) (int_of_nat a)
 
+(* run-time setter ops interleaved with the steps: a single capital letter followed by the new value
+   (A learning rate, B negative learning rate, G discount, L lambda, T tolerance, E epsilon,
+   P/Q permanent/transient lambda of Dyna2).  The generator only emits them right after a dump. *)
+let is_op (c : cursor) = (not (at_end c)) && (let t = peek c in String.length t = 1 && t.[0] >= 'A' && t.[0] <= 'Z')
+let read_sets (c : cursor) : (char * q) list =
+  let rec go acc = if is_op c then (let o = next c in let v = next_q c in go ((o.[0], v) :: acc)) else List.rev acc in
+  go []
+let q_maxl = List.fold_left q_max
+
 let judge _id (c : cursor) (r : cursor) : bool * string =
   let kind = next c in
   match kind with
   | "ql" | "hyst" | "sarsa" | "esarsa" ->
     let ns = next_int c in let na = next_int c in
-    let alpha = next_q c in
-    let beta = if kind = "hyst" then next_q c else q_zero in
-    let g = next_q c in
+    let alpha = ref (next_q c) in
+    let beta = ref (if kind = "hyst" then next_q c else q_zero) in
+    let g = ref (next_q c) in
     let every = next_int c in let n = next_int c in
-    (* steps: (s, a, s1, a1, r, prow) *)
+    (* steps: (setters before the step, s, a, s1, a1, r, prow) *)
     let steps = List.init n (fun _ ->
+        let sets = read_sets c in
         let s = next_nat c in let a = next_nat c in let s1 = next_nat c in
         let a1 = if kind = "sarsa" then next_nat c else O in
         let rw = next_q c in
         let prow = if kind = "esarsa" then List.init na (fun _ -> next_q c) else [] in
-        (s, a, s1, a1, rw, prow)) in
-    let box = box_of g (List.map (fun (_, _, _, _, rw, _) -> rw) steps) in
+        (sets, s, a, s1, a1, rw, prow)) in
+    (* the box of the largest discount in force during the history *)
+    let gmax = q_maxl !g (List.concat_map (fun (sets, _, _, _, _, _, _) -> List.filter_map (fun (o, v) -> if o = 'G' then Some v else None) sets) steps) in
+    let nsets = List.fold_left (fun acc (sets, _, _, _, _, _, _) -> acc + List.length sets) 0 steps in
+    let box = box_of gmax (List.map (fun (_, _, _, _, _, rw, _) -> rw) steps) in
     let site = (match kind with "ql" -> "QLearning::stepUpdateQ" | "hyst" -> "HystereticQLearning::stepUpdateQ"
                               | "sarsa" -> "SARSA::stepUpdateQ" | _ -> "ExpectedSARSA::stepUpdateQ") in
     let clause = (match kind with "ql" -> "ql_bounded" | "hyst" -> "hysteretic_bounded"
                                 | "sarsa" -> "sarsa_bounded" | _ -> "expected_sarsa_bounded") in
-    let step q (s, a, s1, a1, rw, prow) =
+    let step q (_, s, a, s1, a1, rw, prow) =
       match kind with
-      | "ql" -> ql_step alpha g q (((s, a), s1), rw)
-      | "hyst" -> hyst_step alpha beta g q (((s, a), s1), rw)
-      | "sarsa" -> sarsa_step alpha g q ((((s, a), s1), a1), rw)
-      | _ -> esarsa_step alpha g q ((((s, a), s1), rw), prow) in
-    let params_small = small alpha && small beta && small g in
+      | "ql" -> ql_step !alpha !g q (((s, a), s1), rw)
+      | "hyst" -> hyst_step !alpha !beta !g q (((s, a), s1), rw)
+      | "sarsa" -> sarsa_step !alpha !g q ((((s, a), s1), a1), rw)
+      | _ -> esarsa_step !alpha !g q ((((s, a), s1), rw), prow) in
     let state = ref (qzero (nat_of_int ns) (nat_of_int na)) in
-    let exact = ref params_small in
     let pending = ref [] in
-    List.iteri (fun i st ->
+    List.iteri (fun i ((sets, _, _, _, _, _, _) as st) ->
+        if sets <> [] && !pending <> [] then failwith "setter inside an un-dumped batch";
+        List.iter (fun (o, v) -> match o with 'A' -> alpha := v | 'B' -> beta := v | 'G' -> g := v | _ -> failwith "unknown setter") sets;
         pending := st :: !pending;
         if dump_at every n i then begin
           let impl = read_table r ns na in
           let pend = List.rev !pending in
-          let ex = !exact && small_tab !state && List.for_all (fun (_, _, _, _, rw, pr) -> small rw && List.for_all small pr) pend
+          let ex = small !alpha && small !beta && small !g && small_tab !state
+                   && List.for_all (fun (_, _, _, _, _, rw, pr) -> small rw && List.for_all small pr) pend
                    && List.length pend <= 2 in
           (match box with Some (lo, hi) -> check_box ~exact:ex clause site lo hi impl | None -> ());
           let m = List.fold_left step !state pend in
           cmp_tab ~exact:ex (kind ^ "_step") site m impl;
           state := impl; pending := []
         end) steps;
-    (n >= 2, kind ^ (if !exact then "" else "") ^ (if small g && small alpha then "_dyadic" else "_general"))
+    (n >= 2, kind ^ (if small !g && small !alpha then "_dyadic" else "_general") ^ (if nsets > 0 then "_setters" else ""))
   | "dq" ->
     let ns = next_int c in let na = next_int c in
-    let alpha = next_q c in let g = next_q c in
+    let alpha = ref (next_q c) in let g = ref (next_q c) in
     let every = next_int c in let n = next_int c in
     let steps = List.init n (fun _ ->
-        let s = next_nat c in let a = next_nat c in let s1 = next_nat c in let rw = next_q c in (s, a, s1, rw)) in
-    let box = box_of g (List.map (fun (_, _, _, rw) -> rw) steps) in
+        let sets = read_sets c in
+        let s = next_nat c in let a = next_nat c in let s1 = next_nat c in let rw = next_q c in (sets, s, a, s1, rw)) in
+    let gmax = q_maxl !g (List.concat_map (fun (sets, _, _, _, _) -> List.filter_map (fun (o, v) -> if o = 'G' then Some v else None) sets) steps) in
+    let box = box_of gmax (List.map (fun (_, _, _, _, rw) -> rw) steps) in
     let site = "DoubleQLearning::stepUpdateQ" in
     let z = qzero (nat_of_int ns) (nat_of_int na) in
     let state = ref (z, z) in
     let pending = ref [] in
     let heads = ref 0 in
     let illc = ref 0 in
-    List.iteri (fun i (s, a, s1, rw) ->
+    List.iteri (fun i (sets, s, a, s1, rw) ->
+        if sets <> [] && !pending <> [] then failwith "setter inside an un-dumped batch";
+        List.iter (fun (o, v) -> match o with 'A' -> alpha := v | 'G' -> g := v | _ -> failwith "unknown setter") sets;
         let coin = (next_int r) <> 0 in
         if coin then incr heads;
         pending := ((((coin, s), a), s1), rw) :: !pending;
         if dump_at every n i then begin
           let ia = read_table r ns na in let ic = read_table r ns na in
           let pend = List.rev !pending in
-          let ex = small alpha && small g && small_tab (fst !state) && small_tab (snd !state)
+          let ex = small !alpha && small !g && small_tab (fst !state) && small_tab (snd !state)
                    && List.for_all (fun ((((_, _), _), _), rw) -> small rw) pend && List.length pend <= 2 in
           (match box with
            | Some (lo, hi) ->
@@ -156,96 +174,128 @@ let judge _id (c : cursor) (r : cursor) : bool * string =
           let (ma, mc) = List.fold_left (fun (qa, qc) (((((coin, s), a), s1), rw) as e) ->
               let ra = matrix_row qa s1 and rc = matrix_row qc s1 in
               if near_tie (if coin then ra else List.map2 q_sub rc ra) then tie := true;
-              dq_step alpha g (qa, qc) e) !state pend in
+              dq_step !alpha !g (qa, qc) e) !state pend in
           (try cmp_tab ~exact:ex "dq_step_qa" site ma ia; cmp_tab ~exact:ex "dq_step_qc" site mc ic
            with Disagreement (c0, s0, d0) ->
              (* outside the exact regime a near-tie in the arg-max row is ill-conditioned: skip *)
              if (not ex) && !tie then incr illc else raise (Disagreement (c0, s0, d0)));
           state := (ia, ic); pending := []
         end) steps;
-    (n >= 2 && !heads > 0 && !heads < n, "dq" ^ (if small g && small alpha then "_dyadic" else "_general") ^ (if !illc > 0 then "_ill_conditioned" else ""))
+    (n >= 2 && !heads > 0 && !heads < n, "dq" ^ (if small !g && small !alpha then "_dyadic" else "_general") ^ (if !illc > 0 then "_ill_conditioned" else ""))
   | "sarsal" | "octl" | "oevl" ->
     let k = if kind = "sarsal" then "sarsal" else next c in
     let ns = next_int c in let na = next_int c in
-    let alpha = next_q c in let g = next_q c in let lam = next_q c in let tol = next_q c in
-    let eps = if kind = "octl" then next_q c else q_zero in
+    let alpha0 = next_q c in let g0 = next_q c in let lam0 = next_q c in let tol0 = next_q c in
+    (* parameters live in the model's SARSAL record (cached gammaL_ included); the off-policy family
+       reads its members directly, so the same record is used with sl_gl ignored *)
+    let par = ref (sl_ctor alpha0 g0 lam0 tol0) in
+    let eps = ref (if kind = "octl" then next_q c else q_zero) in
     let read_mat () = List.init ns (fun _ -> List.init na (fun _ -> next_q c)) in
     let tgt = if kind = "oevl" then read_mat () else [] in
     let beh = if kind = "sarsal" then [] else read_mat () in
     let every = next_int c in let n = next_int c in
     let steps = List.init n (fun _ ->
+        let sets = read_sets c in
         let s = next_nat c in let a = next_nat c in let s1 = next_nat c in
         let a1 = if kind = "sarsal" then next_nat c else O in
-        let rw = next_q c in (s, a, s1, a1, rw)) in
+        let rw = next_q c in (sets, s, a, s1, a1, rw)) in
+    let nsets = List.fold_left (fun acc (sets, _, _, _, _, _) -> acc + List.length sets) 0 steps in
     let ok = (match k with "ql" -> KQL | "retrace" -> KRetrace | "tb" -> KTreeBackup | "is" -> KImportance | _ -> KQL) in
     let site = (match kind with "sarsal" -> "SARSAL::stepUpdateQ" | "octl" -> "OffPolicyControl::stepUpdateQ" | _ -> "OffPolicyEvaluation::stepUpdateQ") in
-    let step_tol tol st (s, a, s1, a1, rw) =
+    (* [legacy]: OffPolicyControl as it stands in an unrepaired tree (greedy action of s1 handed to getTraceDiscount) *)
+    let step_with ~legacy tol st (_, s, a, s1, a1, rw) =
+      let p = !par in
       match kind with
-      | "sarsal" -> sarsal_step alpha g lam tol st ((((s, a), s1), a1), rw)
-      | "octl" -> offctrl_step ok alpha g lam tol eps (nat_of_int na) st ((((s, a), s1), rw), matrix_get beh s a)
-      | _ -> offeval_step ok alpha g lam tol st ((((((s, a), s1), rw), matrix_row tgt s1), matrix_get tgt s a), matrix_get beh s a) in
+      | "sarsal" -> sarsal_step_p (sl_set_tol p tol) st ((((s, a), s1), a1), rw)
+      | "octl" ->
+        (if legacy then offctrl_step_legacy else offctrl_step) ok p.sl_alpha p.sl_g p.sl_lam tol !eps (nat_of_int na) st ((((s, a), s1), rw), matrix_get beh s a)
+      | _ -> offeval_step ok p.sl_alpha p.sl_g p.sl_lam tol st ((((((s, a), s1), rw), matrix_row tgt s1), matrix_get tgt s a), matrix_get beh s a) in
     let ill = ref 0 in
     (* the target row of the one-step expected backup *)
     let target_row (q : q list list) (s1 : nat) (a1 : nat) : q list =
       match kind with
       | "sarsal" -> point_row (nat_of_int na) a1
-      | "octl" -> egreedy_row eps (matrix_row q s1)
+      | "octl" -> egreedy_row !eps (matrix_row q s1)
       | _ -> matrix_row tgt s1 in
     let lam_family = (kind = "sarsal" || k <> "is") in
-    let params_small = small alpha && small g && small lam && small tol && small eps
-                       && small_tab tgt && small_tab beh
-                       && (kind <> "octl" || na = 1 || na = 2 || na = 4)
-                       && (not (k = "retrace" || k = "is") || List.for_all (List.for_all pow2inv) beh) in
+    let mats_small = small_tab tgt && small_tab beh
+                     && (kind <> "octl" || na = 1 || na = 2 || na = 4)
+                     && (not (k = "retrace" || k = "is") || List.for_all (List.for_all pow2inv) beh) in
     let state = ref (qzero (nat_of_int ns) (nat_of_int na), ([] : tr list)) in
     let pending = ref [] in
     let removed = ref false in
-    List.iteri (fun i st ->
+    List.iteri (fun i ((sets, _, _, _, _, _) as st) ->
+        if sets <> [] && !pending <> [] then failwith "setter inside an un-dumped batch";
+        List.iter (fun (o, v) -> match o with
+            | 'A' -> par := sl_set_alpha !par v
+            | 'G' -> par := sl_set_discount !par v
+            | 'L' -> par := sl_set_lambda !par v
+            | 'T' -> par := sl_set_tol !par v
+            | 'E' -> eps := v
+            | _ -> failwith "unknown setter") sets;
         pending := st :: !pending;
         if dump_at every n i then begin
+          let p = !par in
+          let tol = p.sl_tol and lam = p.sl_lam in
           let iq = read_table r ns na in
           let itr = read_traces r in
           let pend = List.rev !pending in
-          let ex = params_small && small_tab_n 18 (fst !state) && small_tr (snd !state)
-                   && List.for_all (fun (_, _, _, _, rw) -> small rw) pend && List.length pend <= 1 in
+          let ex = mats_small && small p.sl_alpha && small p.sl_g && small lam && small tol && small !eps
+                   && small_tab_n 18 (fst !state) && small_tr (snd !state)
+                   && List.for_all (fun (_, _, _, _, _, rw) -> small rw) pend && List.length pend <= 1 in
           (* O: trace range, unique keys, lambda = 0 one-step backup *)
           if lam_family && q_le tol q_one && not (traces_inb tol itr) then
             oracle_fail "trace_range" site ("stored trace outside [tol,1]: " ^ str_tr itr);
           if not (uniq_keysb itr) then oracle_fail "traces_unique_keys" site ("duplicate key: " ^ str_tr itr);
           if lam_family && q_eq lam q_zero && List.length pend = 1 then begin
-            let (s, a, s1, a1, rw) = List.hd pend in
+            let (_, s, a, s1, a1, rw) = List.hd pend in
             let q0 = fst !state in
-            let x = one_step alpha g q0 s a s1 rw (target_row q0 s1 a1) in
+            let x = one_step p.sl_alpha p.sl_g q0 s a s1 rw (target_row q0 s1 a1) in
             let expect = upd2 q0 s a x in
             List.iteri (fun si (er, ir) -> List.iteri (fun ai (e, v) ->
                 if not (if ex then q_eq e v else q_close e v) then
                   oracle_fail "lambda0_is_one_step" site
-                    (Printf.sprintf "entry (%d,%d) is %s, one-step expected backup gives %s" si ai (string_of_q v) (string_of_q e)))
+                    (Printf.sprintf "lambda is 0 but entry (%d,%d) is %s, the one-step expected backup gives %s" si ai (string_of_q v) (string_of_q e)))
                 (List.combine er ir)) (List.combine expect iq)
           end;
           if List.length itr < List.length (snd !state) + List.length pend then removed := true;
           let tie = ref false in
-          let agrees tol' =
-            let (mq, mtr) = List.fold_left (fun st ((_, _, s1, _, _) as e) ->
-                if kind = "octl" && near_tie (matrix_row (fst st) s1) then tie := true;
-                step_tol tol' st e) !state pend in
+          let agrees ~legacy tol' =
+            let (mq, mtr) = List.fold_left (fun st ((_, s, _, s1, _, _) as e) ->
+                if kind = "octl" && (near_tie (matrix_row (fst st) s1) || near_tie (matrix_row (fst st) s)) then tie := true;
+                step_with ~legacy tol' st e) !state pend in
             cmp_tab ~exact:ex (kind ^ "_step_q") site mq iq;
             cmp_traces ~exact:ex (kind ^ "_step_traces") site mtr itr in
-          (try agrees tol with Disagreement (c0, s0, d0) ->
+          (try agrees ~legacy:false tol with Disagreement (c0, s0, d0) ->
              (* general regime only: a trace whose decayed value sits within rounding of the cut-off may be
                 cut by one side and kept by the other; accept if a cut-off moved by 1e-9 reproduces the dump *)
              let eps9 = q_mul tol9 (q_add q_one (q_abs tol)) in
-             let ok_pert t = (try agrees t; true with Disagreement _ -> false) in
-             if (not ex) && (!tie || ok_pert (q_add tol eps9) || ok_pert (q_sub tol eps9)) then incr ill
+             let ok_pert ~legacy t = (try agrees ~legacy t; true with Disagreement _ -> false) in
+             if (not ex) && (!tie || ok_pert ~legacy:false (q_add tol eps9) || ok_pert ~legacy:false (q_sub tol eps9)) then incr ill
+             else if kind = "octl" && k <> "ql" && ok_pert ~legacy:true tol then
+               (* O: the dump is what the unrepaired OffPolicyControl computes — the trace cut used the greedy
+                  action of s1 instead of the documented target probability of the pair (s,a) *)
+               oracle_fail "documented_trace_discount" site
+                 ("traces were cut with the greedy action of s1, not with the epsilon-greedy target probability of the acted pair (s,a): impl traces " ^ str_tr itr ^ "; " ^ d0)
              else raise (Disagreement (c0, s0, d0)));
           state := (iq, itr); pending := []
         end) steps;
-    (n >= 2 && !removed, kind ^ "_" ^ k ^ (if !ill > 0 then "_ill_conditioned" else ""))
-  | "ps" | "psq" ->
+    (n >= 2 && !removed, kind ^ "_" ^ k ^ (if nsets > 0 then "_setters" else "") ^ (if !ill > 0 then "_ill_conditioned" else ""))
+  | "ps" | "psq" | "psn" ->
     let ns = next_int c in let na = next_int c in
     let g = next_q c in let theta = next_q c in
-    let tm = List.init na (fun _ -> List.init ns (fun _ -> List.init ns (fun _ -> next_q c))) in
-    let rm = List.init ns (fun _ -> List.init na (fun _ -> next_q c)) in
-    let m = { nS = nat_of_int ns; nA = nat_of_int na; p = tm; r = rm; gam = g } in
+    (* "psn": a query-only model (tables s,a,s1) driving the non-Eigen branch; no Bellman oracle there
+       (probabilities <= 1e-6 are dropped by the code, which is not a backup of the stated model) *)
+    let eigen = kind <> "psn" in
+    let tm = if eigen then List.init na (fun _ -> List.init ns (fun _ -> List.init ns (fun _ -> next_q c)))
+             else List.init ns (fun _ -> List.init na (fun _ -> List.init ns (fun _ -> next_q c))) in
+    let rm = if eigen then List.init ns (fun _ -> List.init na (fun _ -> next_q c)) else [] in
+    let rm3 = if eigen then [] else List.init ns (fun _ -> List.init na (fun _ -> List.init ns (fun _ -> next_q c))) in
+    let m = { nS = nat_of_int ns; nA = nat_of_int na; p = (if eigen then tm else []); r = rm; gam = g } in
+    let gm = { gS = nat_of_int ns; gA = nat_of_int na; gT = (if eigen then [] else tm); gRw = rm3; ggam = g } in
+    let do_step st s a = if eigen then ps_step m theta st s a else ps_step_ne gm theta st s a in
+    let do_batch n st ch = if eigen then ps_batch m theta n st ch else ps_batch_ne gm theta n st ch in
+    let init_st = if eigen then ps_init m else ps_init_g gm in
     let site = "PrioritizedSweeping::stepUpdateQ" in
     let read_dump () =
       let iq = read_table r ns na in
@@ -257,13 +307,13 @@ let judge _id (c : cursor) (r : cursor) : bool * string =
     let key_of ((s, a), _) = (int_of_nat s, int_of_nat a) in
     let sort_qu l = List.sort (fun x y -> compare (key_of x) (key_of y)) l in
     let str_qu l = String.concat " " (List.map (fun ((s, a), pr) -> Printf.sprintf "(%d,%d:%s)" (int_of_nat s) (int_of_nat a) (string_of_q pr)) l) in
-    let params_small = small g && small theta && List.for_all small_tab tm && small_tab rm in
+    let params_small = small g && small theta && List.for_all small_tab tm && small_tab rm && List.for_all small_tab rm3 in
     let theta0 = q_eq theta q_zero in
     (* O: invariant of the theorem (theta = 0) on the implementation's own state *)
     let oracle ~ex (iq, iv, ia, iqu, nh) (donel : (nat * nat) list) =
       if nh <> List.length iqu then oracle_fail "ps_invariant" site "queueHandles_ and queue_ sizes differ";
       if not (uniq_keysb (List.map (fun ((s, a), pr) -> ((s, a), pr)) iqu)) then oracle_fail "ps_invariant" site ("duplicate queue key: " ^ str_qu iqu);
-      if theta0 then begin
+      if theta0 && eigen then begin
         let e = if ex then q_zero else q_mul tol9 (q_add q_one (List.fold_left (fun acc x -> q_max acc (q_abs x)) q_zero iv)) in
         if not (ps_invb m e iq iv (List.map fst iqu) donel) then
           oracle_fail "ps_invariant" site (Printf.sprintf "a backed-up pair is neither queued nor Bellman-consistent: q %s v %s queue %s" (str_tab iq) (str_qs iv) (str_qu iqu))
@@ -291,9 +341,9 @@ let judge _id (c : cursor) (r : cursor) : bool * string =
       go mq iq';
       !bad in
     let resync (iq, iv, ia, iqu, _) donel = { ps_q = iq; ps_v = iv; ps_acts = ia; ps_queue = iqu; ps_done = donel } in
-    if kind = "ps" then begin
+    if kind <> "psq" then begin
       let nops = next_int c in
-      let st = ref (ps_init m) in
+      let st = ref init_st in
       let queued_seen = ref false in
       let inconclusive = ref 0 in
       for _ = 1 to nops do
@@ -305,7 +355,7 @@ let judge _id (c : cursor) (r : cursor) : bool * string =
            let d = read_dump () in
            let donel = (s, a) :: !st.ps_done in
            oracle ~ex d donel;
-           let st' = ps_step m theta !st s a in
+           let st' = do_step !st s a in
            (match matches ~ex st' d with Some msg -> disagree "ps_step" site msg | None -> ());
            st := resync d donel
          | "b" ->
@@ -316,7 +366,7 @@ let judge _id (c : cursor) (r : cursor) : bool * string =
            let d = read_dump () in
            let donel = List.rev_append ch !st.ps_done in
            oracle ~ex d donel;
-           (match ps_batch m theta n !st ch with
+           (match do_batch n !st ch with
             | PsBadChoice ->
               (* outside the exact regime two priorities may be tied up to rounding after the first pop *)
               if not ex then incr inconclusive else
@@ -338,7 +388,7 @@ let judge _id (c : cursor) (r : cursor) : bool * string =
              end else
                List.iter (fun (key, _) ->
                    if is_top cur.ps_queue key then
-                     match ps_batch m theta (S O) cur [key] with
+                     match do_batch (S O) cur [key] with
                      | PsOk nxt -> dfs (k - 1) nxt (key :: popped)
                      | PsBadChoice -> ()) cur.ps_queue in
            dfs n !st [];
@@ -353,7 +403,7 @@ let judge _id (c : cursor) (r : cursor) : bool * string =
          | o -> failwith ("unknown ps op " ^ o));
         if !st.ps_queue <> [] then queued_seen := true
       done;
-      (!queued_seen, "ps" ^ (if theta0 then "_theta0" else "_theta") ^ (if params_small then "_dyadic" else "_general") ^ (if !inconclusive > 0 then "_inconclusiveB" else ""))
+      (!queued_seen, kind ^ (if theta0 then "_theta0" else "_theta") ^ (if params_small then "_dyadic" else "_general") ^ (if !inconclusive > 0 then "_inconclusiveB" else ""))
     end else begin
       let rounds = next_int r in
       let (iq, iv, ia, iqu, nh) as d = read_dump () in
@@ -370,7 +420,7 @@ let judge _id (c : cursor) (r : cursor) : bool * string =
     end
   | "dyna" ->
     let ns = next_int c in let na = next_int c in
-    let alpha = next_q c in let g = next_q c in
+    let alpha = ref (next_q c) in let g = next_q c in
     let nops = next_int c in
     let site = "DynaQ::stepUpdateQ" in
     let st = ref (qzero (nat_of_int ns) (nat_of_int na), ([] : (nat * nat) list)) in
@@ -378,13 +428,13 @@ let judge _id (c : cursor) (r : cursor) : bool * string =
     let batches = ref 0 in
     for _ = 1 to nops do
       let op = next c in
-      let ex = small alpha && small g && small_tab (fst !st) in
+      let ex = small !alpha && small g && small_tab (fst !st) in
       let st' =
         (match op with
          | "s" ->
            let s = next_nat c in let a = next_nat c in let s1 = next_nat c in let rw = next_q c in
            rs := rw :: !rs;
-           dyna_step alpha g !st (((s, a), s1), rw)
+           dyna_step !alpha g !st (((s, a), s1), rw)
          | "b" ->
            let n = next_int c in
            let samples = List.init n (fun _ -> let s1 = next_nat c in let rw = next_q c in (s1, rw)) in
@@ -401,8 +451,9 @@ let judge _id (c : cursor) (r : cursor) : bool * string =
                  | (s', a') :: t -> if int_of_nat s = int_of_nat s' && int_of_nat a = int_of_nat a' then i else go (i + 1) t in
                go 0 vis in
              let draws = List.map2 (fun k (s1, rw) -> rs := rw :: !rs; ((nat_of_int (index_of k), s1), rw)) asked samples in
-             (match dyna_batch alpha g !st draws with Some x -> x | None -> disagree "dyna_batch" "DynaQ::batchUpdateQ" "model: draw out of range")
+             (match dyna_batch !alpha g !st draws with Some x -> x | None -> disagree "dyna_batch" "DynaQ::batchUpdateQ" "model: draw out of range")
            end
+         | "a" -> alpha := next_q c; !st
          | o -> failwith ("unknown dyna op " ^ o)) in
       let impl = read_table r ns na in
       (match box_of g !rs with Some (lo, hi) -> check_box ~exact:false "dynaq_bounded" site lo hi impl | None -> ());
@@ -410,6 +461,71 @@ let judge _id (c : cursor) (r : cursor) : bool * string =
       st := (impl, snd st')
     done;
     (!batches > 0 && snd !st <> [], "dyna")
+  | "dyna2" ->
+    let ns = next_int c in let na = next_int c in
+    let alpha = next_q c in let g = next_q c in let lam = next_q c in let tol = next_q c in
+    let terms = List.map int_of_nat (next_nats c) in
+    let nops = next_int c in
+    let site = "Dyna2::stepUpdateQ" in
+    let z = qzero (nat_of_int ns) (nat_of_int na) in
+    let p0 = sl_ctor alpha g lam tol in
+    let st = ref ((p0, (z, ([] : tr list))), (p0, (z, ([] : tr list)))) in
+    let batches = ref 0 and setters = ref 0 in
+    let set_perm f = let ((pp, x), t) = !st in st := ((f pp, x), t) in
+    let set_tran f = let (pm, (pt, x)) = !st in st := (pm, (f pt, x)) in
+    for _ = 1 to nops do
+      let op = next c in
+      let ((pp, (qp0, trp0)), (pt, (qt0, trt0))) = !st in
+      let ex = small pp.sl_alpha && small pp.sl_g && small pp.sl_lam && small pt.sl_lam && small pp.sl_tol
+               && small_tab_n 18 qp0 && small_tab_n 18 qt0 && small_tr trp0 && small_tr trt0 in
+      let stepped = ref None in
+      (match op with
+       | "s" ->
+         let s = next_nat c in let a = next_nat c in let s1 = next_nat c in let a1 = next_nat c in let rw = next_q c in
+         stepped := Some (s, a, s1, a1, rw);
+         st := d2_step !st ((((s, a), s1), a1), rw)
+       | "b" ->
+         let inits = next_nat c in let n = next_int c in let a0 = next_nat c in
+         let draws = List.init n (fun _ ->
+             let s1 = next_nat c in let rw = next_q c in let a1 = next_nat c in let ar = next_nat c in
+             ((((s1, rw), a1), List.mem (int_of_nat s1) terms), ar)) in
+         incr batches;
+         st := d2_batch !st inits a0 draws
+       | "r" -> st := d2_reset !st
+       | "P" -> incr setters; let v = next_q c in set_perm (fun p -> sl_set_lambda p v)
+       | "Q" -> incr setters; let v = next_q c in set_tran (fun p -> sl_set_lambda p v)
+       | "T" -> incr setters; let v = next_q c in set_perm (fun p -> sl_set_tol p v); set_tran (fun p -> sl_set_tol p v)
+       | o -> failwith ("unknown dyna2 op " ^ o));
+      let iqp = read_table r ns na in let itp = read_traces r in
+      let iqt = read_table r ns na in let itt = read_traces r in
+      let ((pp', (mqp, mtp)), (pt', (mqt, mtt))) = !st in
+      (* O *)
+      if not (uniq_keysb itp) then oracle_fail "traces_unique_keys" site ("permanent learner, duplicate key: " ^ str_tr itp);
+      if not (uniq_keysb itt) then oracle_fail "traces_unique_keys" site ("transient learner, duplicate key: " ^ str_tr itt);
+      (match !stepped with
+       | Some (s, a, s1, a1, rw) ->
+         if q_le pp'.sl_tol q_one && not (traces_inb pp'.sl_tol itp) then oracle_fail "trace_range" site ("permanent learner: " ^ str_tr itp);
+         if q_le pt'.sl_tol q_one && not (traces_inb pt'.sl_tol itt) then oracle_fail "trace_range" site ("transient learner: " ^ str_tr itt);
+         let check_l0 name (p : sl_par) q0 iq =
+           if q_eq p.sl_lam q_zero then begin
+             let x = one_step p.sl_alpha p.sl_g q0 s a s1 rw (point_row (nat_of_int na) a1) in
+             let expect = upd2 q0 s a x in
+             List.iteri (fun si (er, ir) -> List.iteri (fun ai (e, v) ->
+                 if not (if ex then q_eq e v else q_close e v) then
+                   oracle_fail "lambda0_is_one_step" site
+                     (Printf.sprintf "%s learner: lambda is 0 but entry (%d,%d) is %s, one-step SARSA gives %s" name si ai (string_of_q v) (string_of_q e)))
+                 (List.combine er ir)) (List.combine expect iq)
+           end in
+         check_l0 "permanent" pp qp0 iqp; check_l0 "transient" pt qt0 iqt
+       | None -> ());
+      (* C *)
+      cmp_tab ~exact:(ex && op <> "b") "dyna2_perm_q" site mqp iqp;
+      cmp_traces ~exact:(ex && op <> "b") "dyna2_perm_traces" site mtp itp;
+      cmp_tab ~exact:(ex && op <> "b") "dyna2_trans_q" site mqt iqt;
+      cmp_traces ~exact:(ex && op <> "b") "dyna2_trans_traces" site mtt itt;
+      st := ((pp', (iqp, itp)), (pt', (iqt, itt)))
+    done;
+    (!batches > 0, "dyna2" ^ (if !setters > 0 then "_setters" else ""))
   | k -> failwith ("unknown case kind " ^ k)
 
 let () = main_loop judge
